@@ -70,7 +70,9 @@ use crate::vvm::{TEST_VM_INVALID_POST, TEST_VM_RAND_ARRAY, Vvm};
 pub struct TopCtx {
     pub originator_stable_addr: Address,
     pub originator_call_seq: u64,
-    pub new_actor_addr_count: RefCell<u64>,
+    /// shared by every nested context of one top-level message (harness fix: test_vm clones the
+    /// counter per nested call, so two sibling creations in one message get the same robust address)
+    pub new_actor_addr_count: Rc<RefCell<u64>>,
     pub circ_supply: TokenAmount,
 }
 
@@ -466,9 +468,13 @@ impl Runtime for InvocationCtx<'_> {
             ));
         }
         self.caller_validated.replace(true);
+        // harness (C11): a caller whose code is not a built-in has no `Type`; the production
+        // runtime answers "forbidden" in that case (test_vm unwraps and panics)
         let to_match =
-            ACTOR_TYPES.get(&self.v.actor(&Address::new_id(self.msg.from)).unwrap().code).unwrap();
-        if types.into_iter().any(|t| *t == *to_match) {
+            ACTOR_TYPES.get(&self.v.actor(&Address::new_id(self.msg.from)).unwrap().code);
+        if let Some(to_match) = to_match
+            && types.into_iter().any(|t| *t == *to_match)
+        {
             return Ok(());
         }
         Err(ActorError::unchecked(
